@@ -53,6 +53,18 @@ _SAFE_BUILTINS = {
     "dict": dict,
     "round": round,
     "print": lambda *a, **k: None,
+    "map": map,
+    "filter": filter,
+    "divmod": divmod,
+    "pow": pow,
+    "repr": repr,
+    "hash": hash,
+    "ord": ord,
+    "chr": chr,
+    "float": float,
+    "callable": callable,
+    "NotImplemented": NotImplemented,
+    "Ellipsis": Ellipsis,
     "abs": abs,
     "bin": bin,
     "iter": iter,
@@ -61,13 +73,15 @@ _SAFE_BUILTINS = {
 }
 
 _SAFE_METHODS = {
-    str: {"split", "startswith", "endswith", "lower", "upper", "replace", "strip", "join", "format", "rsplit", "partition", "zfill", "isdigit", "lstrip", "rstrip", "find", "count"},
+    str: {"removeprefix", "removesuffix", "isalpha", "isalnum", "isidentifier", "splitlines", "title", "capitalize", "index", "rfind", "casefold", "center", "ljust", "rjust", "expandtabs", "encode",
+          "split", "startswith", "endswith", "lower", "upper", "replace", "strip", "join", "format", "rsplit", "partition", "zfill", "isdigit", "lstrip", "rstrip", "find", "count"},
     # mutators are allowed: every value here is a model value owned by the evaluator
-    list: {"index", "count", "copy", "append", "insert", "pop", "extend", "remove", "reverse", "sort"},
+    list: {"index", "count", "copy", "append", "insert", "pop", "extend", "remove", "reverse", "sort", "clear"},
     tuple: {"index", "count"},
-    set: {"copy", "union", "intersection", "difference", "issubset", "issuperset", "pop", "add", "discard", "remove", "update", "isdisjoint"},
+    set: {"copy", "union", "intersection", "difference", "issubset", "issuperset", "pop", "add", "discard", "remove", "update", "isdisjoint", "symmetric_difference", "difference_update",
+          "intersection_update", "clear"},
     frozenset: {"copy", "union", "intersection", "difference", "issubset", "issuperset", "isdisjoint"},
-    dict: {"get", "keys", "values", "items", "copy", "pop", "update", "setdefault"},
+    dict: {"get", "keys", "values", "items", "copy", "pop", "update", "setdefault", "popitem", "clear", "fromkeys"},
 }
 
 
@@ -97,6 +111,12 @@ class MiniEval:
         obj = self.ev(n.value)
         if isinstance(obj, Model):
             if n.attr.startswith("_") or not hasattr(obj, n.attr):
+                # a method the repository's class defines but the reference model does not (new private helper, ...)
+                fb = getattr(type(obj), "_pkg_fallback", None)
+                if fb is not None:
+                    m = fb.bound_repo_method(obj, n.attr)
+                    if m is not None:
+                        return m
                 raise Unsupported(f"model {type(obj).__name__} has no attribute {n.attr}")
             return getattr(obj, n.attr)
         for ty, names in _SAFE_METHODS.items():
@@ -109,11 +129,20 @@ class MiniEval:
     def ev_Call(self, n):
         if isinstance(n.func, ast.Name) and n.func.id == "isinstance" and len(n.args) == 2:
             obj = self.ev(n.args[0])
-            tname = norm(n.args[1])
-            table = {"str": str, "list": list, "set": set, "dict": dict, "tuple": tuple, "int": int, "bool": bool}
-            if tname in table:
-                return isinstance(obj, table[tname])
-            raise Unsupported(f"isinstance against {tname}")
+            table = {"str": str, "list": list, "set": set, "dict": dict, "tuple": tuple, "int": int, "bool": bool, "float": float, "frozenset": frozenset, "bytes": bytes,
+                     "Iterable": (list, tuple, set, frozenset, dict), "Sequence": (list, tuple), "Mapping": dict, "type(None)": type(None)}
+            targs = n.args[1].elts if isinstance(n.args[1], ast.Tuple) else [n.args[1]]
+            types = []
+            for t in targs:
+                tname = norm(t).split(".")[-1]
+                if tname in table:
+                    x = table[tname]
+                    types.extend(x if isinstance(x, tuple) else [x])
+                elif tname in self.env and isinstance(self.env[tname], type):
+                    types.append(self.env[tname])
+                else:
+                    raise Unsupported(f"isinstance against {tname}")
+            return isinstance(obj, tuple(types))
         if isinstance(n.func, ast.Attribute) and n.func.attr == "__init__" and isinstance(n.func.value, ast.Call) and isinstance(n.func.value.func, ast.Name) and n.func.value.func.id == "super":
             return None  # super().__init__(...) of a library base class: no model state
         if isinstance(n.func, ast.Name) and n.func.id == "next" and n.func.id not in self.env and 1 <= len(n.args) <= 2:
@@ -266,6 +295,11 @@ class MiniEval:
             raise Unsupported(f"binop {norm(n)}: {e}")
         raise Unsupported(norm(n))
 
+    def ev_NamedExpr(self, n):
+        v = self.ev(n.value)
+        self._bind(n.target, v)
+        return v
+
     def ev_Lambda(self, n):
         names = [x.arg for x in n.args.posonlyargs + n.args.args]
         outer = self
@@ -311,7 +345,19 @@ class MiniEval:
             if isinstance(v, ast.Constant):
                 out.append(str(v.value))
             else:
-                out.append(str(self.ev(v.value)))
+                val = self.ev(v.value)
+                if v.conversion == 114:
+                    val = repr(val)
+                elif v.conversion == 115:
+                    val = str(val)
+                if v.format_spec is not None:
+                    spec = self.ev_JoinedStr(v.format_spec)
+                    try:
+                        out.append(format(val, spec))
+                    except (TypeError, ValueError) as e:
+                        raise ModelRaise(type(e).__name__, str(e))
+                else:
+                    out.append(str(val))
         return "".join(out)
 
     def _comp(self, n, make):
@@ -470,6 +516,9 @@ class BlockInterp:
                 sub.yielded = []
             r = sub.run(fdef.body)
             outer.steps += sub.steps
+            for nm in getattr(sub, "outer_names", ()):
+                if nm in sub.me.env:
+                    outer.me.env[nm] = sub.me.env[nm]
             if is_gen:
                 if isinstance(r, tuple) and r[0] == "raise":
                     raise ModelRaise(r[1] or "Exception", "raised in generator")
@@ -536,6 +585,17 @@ class BlockInterp:
             self.me._bind(st.target, new)
             return "next"
         if isinstance(st, ast.Pass):
+            return "next"
+        if isinstance(st, (ast.Global, ast.Nonlocal)):
+            self.outer_names = getattr(self, "outer_names", set()) | set(st.names)
+            return "next"
+        if isinstance(st, ast.Assert):
+            if not self.me.ev(st.test):
+                return ("raise", "AssertionError")
+            return "next"
+        if isinstance(st, ast.AnnAssign):
+            if st.value is not None:
+                self.me._bind(st.target, self.me.ev(st.value))
             return "next"
         if isinstance(st, ast.Delete):
             for t in st.targets:
